@@ -556,6 +556,10 @@ class LoopSpec:
     def __init__(self, invariant, modifies=(), heap_modifies=(), havoc=None, fresh_local=None, at_iteration=None):
         self.at_iteration = at_iteration  # hook(interp, env, k): e.g. unfold ghost definitions at k
         self.assume_invariant = None  # optional: hypothesis form of the invariant (finite instantiation)
+        # optional (length, elem(j)): what the loop is *supposed* to iterate over.  The invariant speaks about "the k-th element"
+        # of that ghost sequence, so the real iterable must be proved to be it (same length, same j-th element for a skolem j);
+        # without this a loop over `seq[:1]` would satisfy an invariant about a prefix and exit early unnoticed.
+        self.expect_iterable = None
         self.invariant = invariant
         self.modifies = tuple(modifies)
         self.heap_modifies = tuple(heap_modifies)
@@ -1278,6 +1282,20 @@ class Interp:
             seq, enum = it, False
         n = self.seq_len(seq)
         tag = f"{frame.qualname}#loop{ordinal}"
+        if spec.expect_iterable is not None:
+            exp_n, exp_elem = spec.expect_iterable[:2]
+            eq_fn = spec.expect_iterable[2] if len(spec.expect_iterable) > 2 else None
+            j = z3.Int(f"j_iter!{ordinal}")
+            ctx.oblige(f"{tag}.iterates_over_the_contracted_sequence.length", to_z3(n) == to_z3(exp_n), kind="loop-iterable")
+            got = self.getitem(seq, j)
+            got = got.ref if isinstance(got, SRef) else got
+            try:
+                same = eq_fn(got, j) if eq_fn else to_z3(got) == to_z3(exp_elem(j))
+            except Exception:
+                same = z3.BoolVal(False)
+            ctx.oblige(f"{tag}.iterates_over_the_contracted_sequence.element", z3.Implies(z3.And(j >= 0, j < to_z3(exp_n)), same), kind="loop-iterable")
+            if enum and getattr(it, "start", 0) != 0:
+                ctx.oblige(f"{tag}.iterates_over_the_contracted_sequence.enumerate_from_0", False, kind="loop-iterable")
         # (1) invariant holds on entry
         for nm, f in spec.invariant(self, frame.env, 0 if not z3.is_expr(n) else z3.IntVal(0)):
             ctx.oblige(f"{tag}.inv_init.{nm}", f, kind="loop-init")
@@ -1326,6 +1344,8 @@ class Interp:
         if isinstance(it, dict):
             return list(it.keys())
         if isinstance(it, (set, frozenset)):
+            return list(it)
+        if isinstance(it, (type({}.items()), type({}.keys()), type({}.values()))):
             return list(it)
         if isinstance(it, _Enumerate):
             return [(i + it.start, x) for i, x in enumerate(self.iterate_concrete(it.seq))]
@@ -1707,10 +1727,34 @@ class Interp:
         raise Unsupported(f"`in` on {container!r}")
 
     # -- subscripts ---------------------------------------------------------------------------
+    def _slice_sseq(self, o, sl):
+        """seq[lo:hi] / seq[::-1] of a symbolic-length sequence (Python's clamping semantics; other steps unsupported)."""
+        n = to_z3(o.length)
+
+        def bound(b, default):
+            if b is None:
+                return default
+            b = to_z3(b)
+            b = z3.If(b < 0, b + n, b)
+            return z3.If(b < 0, z3.IntVal(0), z3.If(b > n, n, b))
+
+        step = sl.step
+        if z3.is_expr(step):
+            step = z3.simplify(step)
+            step = step.as_long() if z3.is_int_value(step) else step
+        if step in (None, 1):
+            lo, hi = bound(sl.start, z3.IntVal(0)), bound(sl.stop, n)
+            ln = z3.simplify(z3.If(hi > lo, hi - lo, z3.IntVal(0)))
+            lo = z3.simplify(lo)
+            return SSeq(ln, lambda i, o=o, lo=lo: o.get(z3.simplify(lo + to_z3(i))), o.kind, f"{o.name}[{sl.start}:{sl.stop}]")
+        if step == -1 and sl.start is None and sl.stop is None:
+            return SSeq(o.length, lambda i, o=o, n=n: o.get(z3.simplify(n - 1 - to_z3(i))), o.kind, f"{o.name}[::-1]")
+        raise Unsupported("slice of symbolic sequence with a step other than 1 / [::-1]")
+
     def getitem(self, o, idx):
         if isinstance(o, SSeq):
             if isinstance(idx, slice):
-                raise Unsupported("slice of symbolic sequence")
+                return self._slice_sseq(o, idx)
             return o.get(idx)
         if isinstance(o, (tuple, list, str)):
             if z3.is_expr(idx):
